@@ -106,6 +106,18 @@ def are_joinable(
         if any_out_edges and block2.size != 0:
             return JoinableResult(False, "block1 has outgoing edges")
 
+        # An empty block2 can only be absorbed by a block that ends in a
+        # control transfer if control actually falls through into it.
+        # Otherwise block1 would inherit block2's fallthrough edge, e.g. a
+        # block ending in an unconditional jump or a return.
+        if any_out_edges and not any(
+            _is_fallthrough_edge(edge) and edge.target == block2
+            for edge in block1.outgoing_edges
+        ):
+            return JoinableResult(
+                False, "block1 does not fall through to block2"
+            )
+
         any_in_edges = any(
             edge
             for edge in block2.incoming_edges
